@@ -192,6 +192,28 @@ def main():
 
     violations = 0
     lines = []
+    # ---- 4c. compile-time half of the property, if it has one: the corpus programs tagged with it are given to rustc
+    #          (offending program accepted = failing input; a twin that no longer compiles = the corpus no longer checks)
+    static_accepted, static_twins = [], []
+    if getattr(P, "STATIC_CORPUS", None) and not replay:
+        import corpus
+        citems = [it for it in corpus.ITEMS if it[1] == P.STATIC_CORPUS]
+        rust, _, _ = corpus.run_corpus(citems, None)
+        for it in citems:
+            if not rust[it[0] + "_bad"][0] and not (it[7] and it[7] in known):
+                static_accepted.append(it)
+            if rust[it[0] + "_ok"][0]:
+                static_twins.append((it[0], rust[it[0] + "_ok"][2][:200]))
+        dist["family=compile-time corpus"] = len(citems)
+        if static_accepted:
+            it = static_accepted[0]
+            fn = hl.write_replay(pid, {"property": pid, "kind": "offending-program-accepted-by-rustc", "route": it[2],
+                                       "program": corpus.prog(it[3]), "twin": corpus.prog(it[4]),
+                                       "others": [x[0] for x in static_accepted[1:]]})
+            lines.append(f"VIOLATION property={pid} replay={fn}")
+            violations += len(static_accepted)
+        elif static_twins:
+            framework.append(("corpus twin no longer compiles", static_twins[:5]))
     if crashed:
         # a crash of the real code on a concrete scenario is a failing input
         s = byid[crashed[0]]
@@ -247,6 +269,7 @@ def main():
             **({"scenarios_meeting_the_hypotheses_of_C01_every_schedule": f"{covered2[1]} of {covered2[0]}"} if covered2[0] else {}),
             "variants_tried_after_a_mismatch": deep_tried,
             "agree_only_up_to_release_order_within_runs": len(tolerated),
+            "compile_time_corpus_offending_programs_accepted": len(static_accepted),
             "framework_errors": len(framework), "exhaustive": bool(getattr(P, "EXHAUSTIVE", {}).get(tier, False)),
         },
         "assumptions": P.ASSUMPTIONS, "wall_s": round(time.time() - t0, 1), "violations": violations,
